@@ -596,3 +596,31 @@ def statements_before(body, node):
             return out
         out.append(st)
     return out
+
+
+
+def inline_block_locals(loop: ast.AST, once: Set[str] = None) -> ast.AST:
+    """A copy of a loop whose body has its leading local definitions inlined: `a, b = x, y; r = f(a, b); T[a][b] = r` becomes `T[x][y] = f(x, y)`.
+    A definition is carried only across further definitions of plain local names (nothing is written in between, so the inlined expression
+    reads the same state); the first other statement uses the definitions and ends their reach.  `once`: names that may be inlined (assigned
+    once in the function)."""
+    import copy
+    loop = copy.deepcopy(loop)
+    env: Dict[str, ast.AST] = {}
+    out = []
+    for st in loop.body:
+        st2 = ast.fix_missing_locations(ast.copy_location(Subst(env).visit(st), st)) if env else st
+        if isinstance(st2, ast.Assign) and len(st2.targets) == 1:
+            t = st2.targets[0]
+            if isinstance(t, ast.Name) and (once is None or t.id in once):
+                env[t.id] = st2.value
+                continue
+            if isinstance(t, ast.Tuple) and isinstance(st2.value, ast.Tuple) and len(t.elts) == len(st2.value.elts) and \
+                    all(isinstance(e, ast.Name) and (once is None or e.id in once) for e in t.elts):
+                for e, v_ in zip(t.elts, st2.value.elts):
+                    env[e.id] = v_
+                continue
+        out.append(st2)
+        env = {}
+    loop.body = out or [ast.Pass()]
+    return loop
